@@ -126,7 +126,7 @@ Definition exp_Workflow_runProcs : list stm :=
   [SCall "wf.reconnectDeadEndConnections"; SIf "!wf.readyToRun(procs)" [SFail] []; SFunc "startProc" [SCall "wg.Add"; SGo (SBlock [SDefer (SCall "wg.Done"); SCall "proc.Run"])]; SRange "procs" [SIf "proc == wf.driver" [SBranch "continue"] []; SCall "startProc"]; SIf "wf.driver != WorkflowProcess(wf.sink) && (wf.sink.in().Ready() || wf.sink.paramIn().Ready())" [SCall "startProc"] []; SCall "wf.driver.Run"; SCall "wg.Wait"].
 
 Definition exp_Workflow_readyToRun : list stm :=
-  [SIf "len(procs) == 0" [SReturn "false"] []; SIf "wf.sink == nil" [SReturn "false"] []; SRange "procs" [SIf "!proc.Ready()" [SReturn "false"] []]; SReturn "true"].
+  [SIf "len(procs) == 0" [SReturn "false"] []; SIf "wf.sink == nil" [SReturn "false"] []; SRange "procs" [SIf "!proc.Ready()" [SReturn "false"] []]; SIf "wf.driver != nil && wf.driver != WorkflowProcess(wf.sink) && !wf.driver.Ready()" [SReturn "false"] []; SReturn "true"].
 
 Definition exp_Workflow_reconnectDeadEndConnections : list stm :=
   [SAssign "foundNewDriverProc := false"; SRange "procs" [SRange "proc.OutPorts()" [SRange "opt.RemotePorts" [SIf "ipt.Process() == nil" [SCall "opt.Disconnect"] [SIf "!ok" [SCall "opt.Disconnect"] []]]; SIf "!opt.Ready()" [SCall "wf.sink.From"] []]; SRange "proc.OutParamPorts()" [SRange "pop.RemotePorts" [SIf "rpp.Process() == nil" [SCall "pop.Disconnect"] [SIf "!ok" [SCall "pop.Disconnect"] []]]; SIf "!pop.Ready()" [SCall "wf.sink.FromParam"] []]; SIf "len(proc.OutPorts()) == 0 && len(proc.OutParamPorts()) == 0" [SIf "foundNewDriverProc" [SFail] []; SAssign "foundNewDriverProc = true"; SAssign "wf.driver"] []]; SIf "foundNewDriverProc && len(procs) > 1" [SDelete "wf.procs"] []].
